@@ -208,6 +208,82 @@ def _run(sut, backend, ops):
                         fail('overlapped-load-timestamp', 'load() listed %s with %r' % (i, t))
                 nontrivial = nontrivial or len(l) >= 2
                 continue
+            if op[0] == 'interleave':
+                # disk only: a complete load()/get() runs at the k-th file-system effect *inside* a mutation
+                if backend != 'disk':
+                    continue
+                from vf.props import c04
+                a, (ename, k), b = op[1], (op[2][0], int(op[2][1])), op[3]
+                l = live()
+                if a[0] != 'write' and not l:
+                    continue
+                ida = None if a[0] == 'write' else pick(a[1], l)
+                if a[0] == 'deliver' and model[ida]['marked']:
+                    continue
+                idb = pick(b[1], l) if b[0] == 'get' and l else None
+                if b[0] == 'get' and idb is None:
+                    continue
+                before = dict((i, dict(model[i], delivered=set(model[i]['delivered']))) for i in l)
+                st_ = {'n': 0, 'ran': False, 'err': None, 'got': None}
+
+                def hook(effect):
+                    if ename not in ('any', effect):
+                        return
+                    st_['n'] += 1
+                    if st_['n'] == k + 1 and not st_['ran']:
+                        st_['ran'] = True
+                        c04.REC.hook = None
+                        try:
+                            if b[0] == 'load':
+                                st_['got'] = [(float(t), i) for t, i in store.load()]
+                            else:
+                                st_['got'] = store.get(idb)
+                        except Exception as e:
+                            st_['err'] = e
+                c04.REC.hook = hook
+                try:
+                    do(a, ida)
+                finally:
+                    c04.REC.hook = None
+                if not st_['ran']:
+                    continue
+                nontrivial = nontrivial or len(l) >= 2
+                removed = ida if a[0] == 'remove' else None
+                if b[0] == 'load':
+                    if st_['err'] is not None:
+                        fail('exception:interleaved-load:%s' % type(st_['err']).__name__,
+                             'load() before effect #%d of %r raised %r' % (k, a, st_['err']))
+                        continue
+                    got_ids = [i for _, i in st_['got']]
+                    for i in l:
+                        if i == removed:
+                            continue
+                        if i not in got_ids:
+                            fail('overlapped-load-misses-live-message', 'load() before effect #%d of %r did not list %s '
+                                 '(listed %r)' % (k, a, i, got_ids))
+                            break
+                    for t, i in st_['got']:
+                        if i not in before and i not in model:
+                            fail('overlapped-load-lists-unknown', 'load() listed %r' % (i,))
+                        elif i in before and i in model and t not in (before[i]['ts'], model[i]['ts']):
+                            fail('overlapped-load-timestamp', 'load() listed %s with %r' % (i, t))
+                else:
+                    if idb == removed:
+                        continue            # reading the message that is being removed: any outcome
+                    if st_['err'] is not None:
+                        fail('exception:interleaved-get:%s' % type(st_['err']).__name__,
+                             'get(%s) before effect #%d of %r raised %r' % (idb, k, a, st_['err']))
+                        continue
+                    env, attempts = st_['got']
+                    mb, ma = before[idb], model[idb]
+                    rcs = [[r for n_, r in enumerate(m_['rcpts']) if n_ not in m_['delivered']] for m_ in (mb, ma)]
+                    if env.sender != mb['sender'] or env.flatten() != mb['flat']:
+                        fail('get-content', 'get(%s) at effect #%d of %r: sender/content differ' % (idb, k, a))
+                    elif list(env.recipients) not in rcs or attempts not in (mb['attempts'], ma['attempts']):
+                        fail('get-recipients' if list(env.recipients) not in rcs else 'get-attempts',
+                             'get(%s) at effect #%d of %r: recipients %r attempts %r, expected %r / %r'
+                             % (idb, k, a, env.recipients, attempts, rcs, (mb['attempts'], ma['attempts'])))
+                continue
             if op[0] == 'pair':
                 # two operations on different ids, overlapped in two greenlets
                 a, b = op[1], op[2]
@@ -272,8 +348,12 @@ _pairable = st.one_of(
 )
 _mut = st.one_of(st.tuples(st.just('remove'), _idx).map(list), st.tuples(st.just('ts'), _idx, _ts).map(list),
                  st.tuples(st.just('incr'), _idx).map(list), st.tuples(st.just('write'), _wspec, _ts).map(list))
+_mut2 = st.one_of(_mut, _mut, st.tuples(st.just('deliver'), _idx, st.lists(st.integers(0, 4), min_size=1, max_size=3), st.booleans()).map(list))
+_inter = st.tuples(st.just('interleave'), _mut2,
+                   st.tuples(st.sampled_from(['rename', 'rename', 'mkstemp', 'unlink', 'chunk-write', 'any']), st.integers(0, 2)).map(list),
+                   st.one_of(st.just(['load']), st.just(['load']), st.tuples(st.just('get'), _idx).map(list))).map(list)
 _op = st.one_of(_prim, _prim, _prim, st.tuples(st.just('pair'), _pairable, _pairable).map(list),
-                st.tuples(st.just('pair_load'), _mut).map(list))
+                st.tuples(st.just('pair_load'), _mut).map(list), _inter)
 _case = st.tuples(st.sampled_from(BACKENDS),
                   st.tuples(st.lists(st.tuples(st.just('write'), _wspec, _ts).map(list), min_size=2, max_size=5),
                             st.lists(_op, max_size=22)).map(lambda t: t[0] + t[1]))
@@ -310,6 +390,10 @@ def replay(case):
                 ops.append(o)
             elif o[0] == 'pair_load' and len(o) == 2 and o[1]:
                 ops.append(o)
+            elif o[0] == 'interleave' and len(o) == 4 and o[1] and o[3] and o[1][0] in ('write', 'ts', 'incr', 'remove', 'deliver') \
+                    and o[3][0] in ('load', 'get'):
+                if isinstance(o[2], list) and len(o[2]) == 2 and o[2][0] in ('rename', 'mkstemp', 'unlink', 'chunk-write', 'any'):
+                    ops.append(['interleave', o[1], [o[2][0], max(0, int(o[2][1]))], o[3]])
         except Exception:
             continue
     fails, _ = run_ops(case['backend'], ops)
